@@ -907,6 +907,11 @@ impl<TokenIter: Iterator<Item = Result<Token>>> Parser<TokenIter> {
             }
             TokenData::Identifier(symbol) => DatumBody::Symbol(symbol.clone()).locate(location),
             TokenData::Primitive(p) => DatumBody::Primitive(p.clone()).locate(location),
+            // the quote abbreviation nests: ''a is (quote (quote a)), #('a) holds (quote a)
+            TokenData::Quote => {
+                self.advance(1)?;
+                self.parse_quoted()?
+            }
             other => return located_error!(SyntaxError::UnexpectedToken(other.clone()), location),
         })
     }
